@@ -549,6 +549,47 @@ func bodyText(fd *ast.FuncDecl) string {
 }
 
 // drainGuard: under which condition on maxWait the timeout case of waitForControlPlaneDrain can fire
+// stagingShape: how writeSignalProgressBytesFile (cmd/reload.go) names its staging file
+func stagingShape(repo string) string {
+	rf, err := parser.ParseFile(fset, filepath.Join(repo, "cmd", "reload.go"), nil, 0)
+	if err != nil {
+		die("parse cmd/reload.go: %v", err)
+	}
+	shape := ""
+	for _, d := range rf.Decls {
+		fd, ok := d.(*ast.FuncDecl)
+		if !ok || fd.Recv != nil || fd.Name.Name != "writeSignalProgressBytesFile" {
+			continue
+		}
+		shape = "SUnknown"
+		renames := 0
+		ast.Inspect(fd.Body, func(x ast.Node) bool {
+			if c, ok := x.(*ast.CallExpr); ok {
+				switch exprStr(c.Fun) {
+				case "os.CreateTemp", "ioutil.TempFile":
+					if len(c.Args) == 2 && strings.Contains(exprStr(c.Args[1]), "*") {
+						shape = "SUnique"
+					} else {
+						shape = "SShared"
+					}
+				case "os.OpenFile", "os.Create":
+					shape = "SShared"
+				case "os.Rename":
+					renames++
+				}
+			}
+			return true
+		})
+		if renames != 1 {
+			shape = "SUnknown"
+		}
+	}
+	if shape == "" {
+		die("function writeSignalProgressBytesFile not found in cmd/reload.go")
+	}
+	return shape
+}
+
 // readyDeadline: where waitReloadReadyOrSignal evaluates its timer expression relative to its loop
 func readyDeadline(fd *ast.FuncDecl) string {
 	var loop *ast.ForStmt
@@ -811,6 +852,7 @@ func main() {
 		die("function waitReloadReadyOrSignal not found in cmd/run.go")
 	}
 	res["ready_deadline"] = readyDeadline(fns["waitReloadReadyOrSignal"])
+	res["staging"] = stagingShape(repo)
 	// constants
 	consts := map[string]string{}
 	grab := func(file string, names ...string) {
@@ -923,6 +965,14 @@ func label(n ast.Node) string {
 				}
 			}
 			switch fn {
+			case "os.CreateTemp", "os.OpenFile", "os.Create":
+				set["fs:create"] = true
+			case "tmpFile.Write":
+				set["fs:write"] = true
+			case "os.Rename":
+				set["fs:rename"] = true
+			case "os.Remove":
+				set["fs:remove"] = true
 			case "retireControlPlaneConnections":
 				set["tail:drain"] = true
 			case "oldCancel":
@@ -1055,7 +1105,12 @@ func instrStmt(hook, fn string, s ast.Stmt) {
 			die("go statement without function literal in %s", fn)
 		}
 	case *ast.DeferStmt:
-		die("defer in %s", fn)
+		// a deferred closure runs in the same goroutine: its statements get their yields too
+		if fl, ok := v.Call.Fun.(*ast.FuncLit); ok {
+			instrBlock(hook, fn, fl.Body)
+		} else {
+			die("defer of a plain call in %s", fn)
+		}
 	}
 }
 
@@ -1162,6 +1217,8 @@ func main() {
 		[]string{"BeginReloadProxyFailureSuppression", "EndReloadProxyFailureSuppression"}, filepath.Join(out, "sticky_cache_instrumented.go"))
 	instrument(filepath.Join(repo, "cmd", "reload_manager.go"), "verifC20Yield",
 		[]string{"startControlPlaneRetirement"}, filepath.Join(out, "reload_manager_instrumented.go"))
+	instrument(filepath.Join(repo, "cmd", "reload.go"), "verifC20Yield",
+		[]string{"writeSignalProgressBytesFile"}, filepath.Join(out, "reload_instrumented.go"))
 	if seams == 0 {
 		die("waitReloadReadyOrSignal: no time.NewTimer/time.After call to put the clock seam on")
 	}
@@ -1194,6 +1251,10 @@ EXPECTED_POINTS = [
     "", "tail:drain", "", "tail:cancel", "tail:close", "", "", "tail:cleanup", "", "", "tail:closedone")]
 
 
+# labelled statements of writeSignalProgressBytesFile in source order (the deferred remove is written first)
+EXPECTED_FS_LABELS = ["fs:create", "fs:remove", "fs:write", "fs:rename"]
+
+
 def instrument(sc):
     """build-time overlay: copies of cmd/run.go and dialer/sticky_cache.go with a yield call before every
     statement of the lock's functions (nothing is written into the repository).  Returns (overlay, points)."""
@@ -1212,7 +1273,8 @@ def instrument(sc):
     points = [(p["fn"], p["label"]) for p in json.loads(so)]
     overlay = {os.path.join(vlib.REPO, "cmd", "run.go"): os.path.join(dd, "out", "run_instrumented.go"),
                os.path.join(vlib.REPO, "component", "outbound", "dialer", "sticky_cache.go"): os.path.join(dd, "out", "sticky_cache_instrumented.go"),
-               os.path.join(vlib.REPO, "cmd", "reload_manager.go"): os.path.join(dd, "out", "reload_manager_instrumented.go")}
+               os.path.join(vlib.REPO, "cmd", "reload_manager.go"): os.path.join(dd, "out", "reload_manager_instrumented.go"),
+               os.path.join(vlib.REPO, "cmd", "reload.go"): os.path.join(dd, "out", "reload_instrumented.go")}
     return overlay, points
 
 
@@ -1272,6 +1334,65 @@ def gen_micro_adversarial(rng):
                                             {"t": rel, "until": "done"}, {"t": 2, "until": "done"}], "drain": True, "name": "teardown-gap-after@" + where.split(":")[1]})
     out.append({"threads": th, "steps": [{"t": i % 6} for i in range(240)], "drain": True, "name": "lockstep-teardown"})
     return out
+
+
+def gen_micro_writers(rng):
+    """two or three goroutines in the real writeSignalProgressBytesFile on the same progress file"""
+    out = []
+    for n in (2, 3):
+        th = [{"kind": "writer"} for _ in range(n)]
+        out.append({"threads": th, "steps": [{"t": i % n} for i in range(30 * n)], "drain": True, "name": "writers-lockstep"})
+        out.append({"threads": th, "steps": [{"t": 0, "until": "fs:write"}, {"t": 1, "until": "fs:write"}, {"t": 0, "until": "fs:rename"}, {"t": 1, "until": "fs:rename"},
+                                            {"t": 0, "until": "done"}, {"t": 1, "until": "done"}], "drain": True, "name": "writers-create-create-write-write"})
+        out.append({"threads": th, "steps": [{"t": 0, "until": "fs:rename"}, {"t": 1, "until": "done"}, {"t": 0, "until": "done"}], "drain": True, "name": "writers-remove-under-rename"})
+    for _ in range(24):
+        n = rng.choice([2, 3])
+        out.append({"threads": [{"kind": "writer"} for _ in range(n)], "steps": [{"t": rng.randrange(n)} for _ in range(rng.choice([10, 25, 50]))],
+                    "drain": True, "name": "writers-random"})
+    return out
+
+
+def run_writers(sc, binary, cases, tag, d, scale=1):
+    inp, outp = sc.path("c20w_%s.in" % tag), sc.path("c20w_%s.out" % tag)
+    with open(inp, "w") as f:
+        for c in cases:
+            f.write(json.dumps({"threads": c["threads"], "steps": c["steps"], "drain": c["drain"]}) + "\n")
+    rc, so, se, dt = vlib.run_go_harness(binary, "TestVerifC20Micro", inp, outp, timeout=1800, extra_env={"VERIF_C20_SCALE": str(scale)})
+    if rc != 0:
+        return None, None, "writer harness failed rc=%d: %s %s" % (rc, so[-1500:], se[-1500:])
+    results = [json.loads(l) for l in open(outp)]
+    pre, terms, idx = {}, [], []
+    for i, (c, r) in enumerate(zip(cases, results)):
+        if r.get("panic"):
+            pre[i] = [(0, 9, "panic: " + r["panic"])]
+            continue
+        if r.get("note"):
+            pre[i] = [(len(r.get("recs") or []), 8, r["note"])]
+            continue
+        steps = []
+        for rec in r.get("recs") or []:
+            fs = any(x.startswith("fs:") for x in rec["label"].split(","))
+            steps.append("(%d, %d%%N)" % (rec["t"] if fs else 1000, rec["obs"].get("file", 0)))
+        rets = r.get("rets") or []
+        terms.append("check_pw %s %d [%s] %s" % (d["staging"], len(c["threads"]), "; ".join(steps), vlib.cbool(all(x == 0 for x in rets))))
+        idx.append(i)
+    text = ("From Coq Require Import List NArith ZArith Bool.\nFrom Dae Require Import C20_Spec C20_Model C20_Check.\nImport ListNotations.\n"
+            "Definition R := Eval vm_compute in [\n" + ";\n".join(terms) + "\n].\nPrint R.\n")
+    ok, outtxt = vlib.coq_eval("C20_writers_%s" % tag, text, timeout=3600)
+    if not ok:
+        return None, None, "coq evaluation of the writer cases failed: " + outtxt[-2000:]
+    m = re.search(r"R\s*=\s*(.*?)\n\s*:\s*list", outtxt, re.S)
+    body = re.sub(r"\s+", "", m.group(1)).replace("%N", "")
+    per = re.findall(r"\[((?:\(\d+,\d+\);?)*)\]", body[1:-1])
+    if len(per) != len(idx):
+        return None, None, "cannot parse coq output of the writer cases (%d vs %d)" % (len(per), len(idx))
+    errors = {}
+    for i, pp in zip(idx, per):
+        e = [(int(x), int(y), "") for x, y in re.findall(r"\((\d+),(\d+)\)", pp)]
+        if e:
+            errors[i] = e
+    errors.update(pre)
+    return errors, results, None
 
 
 def gen_micro_random(rng):
@@ -1507,6 +1628,8 @@ def gen_text(d):
     d["budget_total_ns"] = eval_duration(c["reloadTotalSwitchBudget"], {})
     if not isinstance(d.get("ret_tail"), list) or any(x not in ("TCancel", "TCloseGen", "TCleanup", "TCloseDone") for x in d["ret_tail"]):
         raise AnchorMoved("startControlPlaneRetirement: tail of the retirement goroutine not understood: %r" % d.get("ret_tail"))
+    if d.get("staging") not in ("SUnique", "SShared", "SUnknown"):
+        raise AnchorMoved("writeSignalProgressBytesFile: staging file shape not understood: %r" % d.get("staging"))
     if d.get("ready_deadline") not in ("RFixed", "RRearmed", "RNone"):
         raise AnchorMoved("waitReloadReadyOrSignal: timer shape not understood: %r" % d.get("ready_deadline"))
     if d.get("timer_guard") not in ("GAlways", "GNonNeg", "GPositive", "GNever"):
@@ -1540,6 +1663,8 @@ def gen_text(d):
          "Definition gen_ret_tail : list tail_step := [%s]." % "; ".join(d["ret_tail"]),
          "(* cmd/run.go waitReloadReadyOrSignal: timer created before the `for` (RFixed) or timer/After evaluated inside it (RRearmed) *)",
          "Definition gen_ready_deadline : ready_deadline := %s." % d["ready_deadline"],
+         "(* cmd/reload.go writeSignalProgressBytesFile: os.CreateTemp with a pattern (SUnique) or one fixed staging name (SShared) *)",
+         "Definition gen_staging : staging := %s." % d["staging"],
          "Definition gen_tables : tables := Build_tables gen_worker_paths gen_main_paths gen_cap gen_quiesce gen_timer_guard gen_budget_total gen_ret_tail.", ""]
     return "\n".join(t)
 
@@ -2049,7 +2174,7 @@ def main(argv):
         try:
             yield_overlay, points = instrument(sc)
             extra.update(yield_overlay)
-            if points != EXPECTED_POINTS:
+            if points[:len(EXPECTED_POINTS)] != EXPECTED_POINTS or [x[1] for x in points[len(EXPECTED_POINTS):] if x[1]] != EXPECTED_FS_LABELS:
                 tie_problems["yield_points_changed_shape"] = {"expected": EXPECTED_POINTS, "found": points}
             cov["yield_points"] = len(points)
         except AnchorMoved as e:
@@ -2218,6 +2343,37 @@ def main(argv):
                                   "at quiescence the muting counter or the number of accepted-unreleased requests is not (pending ? 1 : 0); code 8: a goroutine never came back"},
                           "under an interleaving of the atomic steps of %d signal goroutines, the holder and the release goroutine the lock is broken: "
                           "schedule %r (%d failing schedules)" % (sum(1 for t in mcases[i]["threads"] if t["kind"] == "sig"), mcases[i]["name"], len(m_spec)))
+        # ---- 3d. two or three real writers of the progress file ----
+        wcases = gen_micro_writers(rng)
+        werr, wres, wfail = run_writers(sc, binary, wcases, "w", d)
+        if wfail:
+            tie_problems["progress_writers_stage"] = wfail
+        else:
+            for i in sorted(i for i, e in werr.items() if any(x[1] == 8 for x in e))[:2]:
+                for scale in (4, 16):
+                    e, r, err = run_writers(sc, binary, [wcases[i]], "wretry", d, scale=scale)
+                    if err or not e.get(0):
+                        if not err:
+                            werr.pop(i, None)
+                            micro_passed += 1
+                        break
+                    werr[i], wres[i] = e[0], r[0]
+            w_spec = sorted((i for i, e in werr.items() if any(x[1] in (7, 8, 9) for x in e)), key=lambda j: (wcases[j]["name"] == "writers-random", len(wres[j].get("recs") or [])))
+            w_model = [i for i, e in werr.items() if i not in w_spec]
+            if w_spec:
+                i = w_spec[0]
+                out.violation("impl_vs_spec_progress_writers",
+                              {"case": wcases[i], "errors": werr[i], "thread_results (0 = nil error)": wres[i].get("rets"),
+                               "trace (goroutine, function, statement, what a reader of the progress file saw: 0 old record, w+1 record of writer w, 99 missing/truncated/spliced)":
+                                   [(x["t"], x["fn"], x["label"], x["obs"].get("file")) for x in (wres[i].get("recs") or [])],
+                               "failing_schedules": len(w_spec), "goroutine_dump": wres[i].get("dump"),
+                               "how": "feed `case` to TestVerifC20Micro (binary built with the yield overlay): goroutines run the real writeSignalProgressBytesFile on one temp path"},
+                              "two or three overlapping writes of the reload progress file do not replace it atomically: a reader finds a missing, truncated or spliced "
+                              "record, or a writer's rename is lost so that its answer is never published; schedule %r (%d failing schedules)" % (wcases[i]["name"], len(w_spec)))
+            if w_model:
+                tie_problems["progress_writers_correspondence"] = {"case": wcases[w_model[0]], "errors": werr[w_model[0]]}
+            cov["progress_writer_schedules"] = len(wcases)
+            cov["progress_writer_schedules_matching_model"] = len(wcases) - len(werr)
         if mfail:
             tie_problems["atomic_step_stage"] = mfail
         elif m_model:
